@@ -146,7 +146,10 @@ func checkC12(c *Ctx, w *World) {
 	cs0 := send.Params[0]
 	m := send.Params[1]
 	isCSField := func(field string) vpred {
-		return func(v ssa.Value) bool { f, base, ok := loadedField(v); return ok && f == field && base == ssa.Value(cs0) }
+		return func(v ssa.Value) bool {
+			f, base, ok := loadedField(v)
+			return ok && f == field && base == ssa.Value(cs0)
+		}
 	}
 	sAtoms := []atomDef{
 		eqAtom("noStream", func(v ssa.Value) bool {
